@@ -21,5 +21,15 @@ def fill(add, pending):
         'Trusted: linear-scan model; any current row with the id is an acceptable answer when ids are duplicated.',
         'deterministic simulation: seeded history search vs scan-based lookup model',
         'DESIGN.md section 3 C15')
-    for pid in ('C09', 'C10', 'C13'):
+    add('C13', 'sched', 'exploration',
+        'Seeded search over thread schedules: 2-4 real caller threads run under a baton-passing scheduler that decides every '
+        'context switch at source-line (sometimes opcode) granularity inside hszinc (and, in a tenth of runs, pyparsing); '
+        'filters are attributable by construction so a result computed with another filter\'s code is recognised; cache capacity, '
+        'stdout slowness/faults, gc timing are per-run knobs; plus single-thread use histories around the cache capacity '
+        '(as-shipped 500 and small). Samples schedules (random + PCT), does not enumerate them.',
+        'Trusted: settrace line events as pre-emption points (finer than real GIL switches); C code atomic; by-construction '
+        'expected rows cross-checked by a solo evaluation before the threads start.',
+        'deterministic simulation: baton-passing thread scheduler (random/PCT schedules), simulated locks and stdout, seeded cache histories',
+        'DESIGN.md section 3 C13')
+    for pid in ('C09', 'C10'):
         pending[pid] = 'designed (DESIGN.md section 3) but its check is not built yet in this commit; not claimed until it is'
